@@ -1,5 +1,6 @@
 """Engine `stream`: spec/stream/Streams.tla <-> the stream sources and adaptors of include/unifex (C13).
 
+ Sequential part
  1. pipeline catalogue (engines/stream/catalogue.py) -> JSON for TLC and generated C++ factories
  2. TLC: the invariants of Streams.tla on every behaviour of every shape x source scripts x predicate scripts
     (fine-grained instance StreamsMC on a small script set, macro-step instance StreamsMacro on the full one)
@@ -7,7 +8,15 @@
  4. replay on the real adaptors under ASan/UBSan; harness sources with address-tracked next()/cleanup() operation states
  5. every recorded execution is validated by TLC against the monitor StreamMon (the arbiter for C13); observation
     differences against Streams.tla in the elements handed to the consumer and in the consumer's result (what the adaptors'
-    definitions prescribe, given the scripted reactions of the sources) are reported as well; everything else is drift."""
+    definitions prescribe, given the scripted reactions of the sources) are reported as well; everything else is drift.
+ Race part (all timings of stop / trigger relative to in-flight next() operations)
+ 6. TLC: StopImmediately.tla (the six-valued state_ protocol) and TakeUntil.tla (cleanupReady_ / cleanupCompleted_) at atomic
+    granularity, with spec-level mutations that must violate their properties
+ 7. controlled threads (engines/stream/driver_race.cpp; schedule points stream.* in stop_immediately.hpp, take_until.hpp,
+    type_erased_stream.hpp): one completer thread per harness source, a stopper, the consumer; bounded-preemption DFS +
+    seeded random schedules; every execution validated against StreamMon, ASan/UBSan, exact deadlock = lost completion
+ 8. guided replay: every behaviour (edge cover) of the two race models executed on the real code at the corresponding
+    schedule points (site mismatch / outcome other than predicted = drift)."""
 import collections, concurrent.futures, hashlib, itertools, json, os, sys, time
 
 sys.path.insert(0, os.path.join(os.path.dirname(__file__), "..", "..", "tools"))
